@@ -57,7 +57,7 @@ W_LOOP2 = '''
 '''
 WGH = [('unsigned long', 'ZI0', 'g_z_in'), ('unsigned long', 'N0', '$2'), ('char *', 'P0', '$1')]
 WSET = '  unsigned long a_n; __CPROVER_assume(a_n <= (1UL << 50));\n  char *data = malloc(a_n);\n  __CPROVER_assume(g_z_in < (1UL << 60) && obj.AVAIL == 0);\n'
-UNITS.append(Unit('out.gzip.write', (G + 'write', None), contract=W_C.replace(', @BINDSX', ''), loops={1: W_LOOP, 2: W_LOOP2}, prelude=P, opaque=OPQ,
+UNITS.append(Unit('out.gzip.write', (G + 'write', None), contract=W_C.replace(', @BINDSX', ''), loops={'1': W_LOOP, '1.1': W_LOOP2}, prelude=P, opaque=OPQ,
                   ghost=WGH, replace=['out.gzip.write_gzip'], stubs=['lib_deflate', 'BaseCborOutputWriter__write'],
                   setup=SETUP + WSET.replace('AVAIL', 'm_gzip.avail_in'),
                   args=['&obj', 'data', 'a_n'], props=['C14'], timeout=600, post='  if (g_exc != 0) { CANARY("failure reachable"); }',
@@ -139,7 +139,7 @@ __CPROVER_ensures(g_exc == 0 || g_exc == EXC_CborOutputException)
 __CPROVER_ensures(!g_f_order_bad && !g_f_name_bad)
 __CPROVER_ensures(($1->which == 1 && g_exc == 0) ==> (''' + NAME_INV + ''' && $this->m_value.id == $1->s.id))
 __CPROVER_ensures($1->which == 1 ==> (g_f_nrename == (@O0 ? 1UL : 0UL)))
-__CPROVER_ensures($1->which != 1 ==> (g_f_nrename == 0 && g_f_open == @O0 && g_exc == 0))
+__CPROVER_ensures(($1->which != 1 && g_f_nrename == 0 && g_exc == 0) ==> g_f_open == @O0)   /* a value of the other kind: see out.file.rotate_output.c13; ignoring it is not demanded here */
 __CPROVER_ensures(($1->which == 1 && g_exc == 0) ==> (g_f_open && $this->m_out.open_ && !g_f_renamed))
 __CPROVER_ensures(($1->which == 1 && g_exc != 0) ==> !g_f_open)
 '''
@@ -162,6 +162,46 @@ UNITS.append(Unit('out.file.dtor', ('@_ZN4CDNS6WriterINSt7__cxx1112basic_stringI
                   setup='  static struct Writer_str obj;\n  __CPROVER_assume(!g_f_order_bad && !g_f_renamed && obj.m_out.open_ == g_f_open && g_f_nrename == 0 && !g_f_name_bad && NAME_INV_OBJ);\n', args=['&obj'],
                   props=['C15'], timeout=300,
                   note='destruction of the named-file writer: flush, close, then one rename; never throws'))
+# write / open / constructor of the named-file writer
+WS_WRITE = """
+__CPROVER_requires(__CPROVER_w_ok($this, sizeof(*$this)) && g_exc == 0 && !g_f_order_bad && !g_f_renamed && g_f_open && $this->m_out.open_ && !g_f_name_bad)
+__CPROVER_requires($2 < (1UL << 62) && g_f_wbytes < (1UL << 62) && __CPROVER_r_ok($1, $2))
+__CPROVER_assigns($this->m_out, g_f_order_bad, g_f_flushed, g_f_wbytes, g_f_wsrc, g_lost, g_exc)
+__CPROVER_ensures(g_exc == 0 && !g_f_order_bad && g_f_open && $this->m_out.open_ && !g_f_renamed)
+__CPROVER_ensures(g_f_wbytes == @WB0 + $2 && g_f_wsrc == $1)
+"""
+UNITS.append(Unit('out.file.write', ('@_ZN4CDNS6WriterINSt7__cxx1112basic_stringIcSt11char_traitsIcESaIcEEEE5writeEPKcm', None), contract=WS_WRITE, prelude=P, opaque=WS_OPQ,
+                  ghost=[('unsigned long', 'WB0', 'g_f_wbytes')], stubs=['ofstream__\\w+', 'cstring__\\w+'],
+                  setup='  static struct Writer_str obj; static char data[4096]; unsigned long a_n; __CPROVER_assume(a_n <= 4096);\n  __CPROVER_assume(!g_f_order_bad && !g_f_renamed && g_f_open && obj.m_out.open_ && !g_f_name_bad && g_f_wbytes < (1UL << 62));\n',
+                  args=['&obj', 'data', 'a_n'], props=['C15', 'C13'], timeout=300,
+                  note='every byte handed to the named-file writer goes, once and from the caller\'s buffer, to the stream opened on the .part file (never to a closed or renamed file)'))
+WS_OPEN = """
+__CPROVER_requires(__CPROVER_w_ok($this, sizeof(*$this)) && g_exc == 0 && !g_f_order_bad && !g_f_open && !$this->m_out.open_ && !g_f_name_bad)
+__CPROVER_assigns($this->m_out, g_f_open, g_f_flushed, g_f_renamed, g_f_name_bad, g_f_path, g_f_base, g_f_suffix, g_cc, g_exc)
+__CPROVER_ensures(g_exc == 0 || g_exc == EXC_CborOutputException)
+__CPROVER_ensures(!g_f_name_bad && !g_f_order_bad)
+__CPROVER_ensures(g_exc == 0 ==> (g_f_open && $this->m_out.open_ && !g_f_renamed && """ + NAME_INV + """))
+__CPROVER_ensures(g_exc != 0 ==> (!g_f_open && !$this->m_out.open_))
+"""
+UNITS.append(Unit('out.file.open', ('@_ZN4CDNS6WriterINSt7__cxx1112basic_stringIcSt11char_traitsIcESaIcEEEE4openEv', None), contract=WS_OPEN, prelude=P, opaque=WS_OPQ,
+                  stubs=['ofstream__\\w+', 'cstring__\\w+'],
+                  setup='  static struct Writer_str obj;\n  __CPROVER_assume(!g_f_order_bad && !g_f_open && !obj.m_out.open_ && !g_f_name_bad);\n', args=['&obj'],
+                  props=['C15', 'C14'], timeout=300, post='  if (g_exc != 0) { CANARY("open failure reachable"); }',
+                  note='the file is opened under (<name> + <extension>) + ".part" - the compressing writers pass their suffix as <extension> - and a failed open raises'))
+WS_CTOR = """
+__CPROVER_requires(__CPROVER_r_ok($1, sizeof(*$1)) && g_exc == 0 && !g_f_order_bad && !g_f_open && !g_f_name_bad)
+__CPROVER_assigns(g_f_open, g_f_flushed, g_f_renamed, g_f_name_bad, g_f_path, g_f_base, g_f_suffix, g_cc, g_exc)
+__CPROVER_ensures(g_exc == 0 || g_exc == EXC_CborOutputException)
+__CPROVER_ensures(!g_f_name_bad && !g_f_order_bad)
+__CPROVER_ensures(g_exc == 0 ==> ($ret.m_value.id == $1->id && $ret.m_extension.id == $2.id))
+__CPROVER_ensures(g_exc == 0 ==> (g_f_open && $ret.m_out.open_ && !g_f_renamed && """ + NAME_INV.replace('$this->', '$ret.') + """))
+"""
+UNITS.append(Unit('out.file.ctor', ('@_ZN4CDNS6WriterINSt7__cxx1112basic_stringIcSt11char_traitsIcESaIcEEEEC1ERKS6_S6_', None), contract=WS_CTOR, prelude=P, opaque=WS_OPQ,
+                  inline=[('@_ZN4CDNS6WriterINSt7__cxx1112basic_stringIcSt11char_traitsIcESaIcEEEE4openEv', None)],
+                  stubs=['ofstream__\\w+', 'cstring__\\w+'],
+                  setup='  static cstring a_name, a_ext;\n  __CPROVER_assume(!g_f_order_bad && !g_f_open && !g_f_name_bad);\n', args=['&a_name', 'a_ext'],
+                  props=['C15', 'C14'], timeout=300, post='  if (g_exc != 0) { CANARY("open failure reachable"); }',
+                  note='a new named-file writer keeps the name and the extension it was given and has (<name> + <extension>) + ".part" open'))
 WS_R16 = '''
 __CPROVER_requires(__CPROVER_w_ok($this, sizeof(*$this)) && __CPROVER_r_ok($1, sizeof(*$1)) && g_exc == 0 && !g_f_order_bad && !g_f_renamed && $this->m_out.open_ == g_f_open && g_f_nrename == 0)
 __CPROVER_requires($1->which == 1 && g_f_open && ($this->m_out.failed != 0) == (g_lost != 0))
@@ -194,7 +234,7 @@ UNITS.append(Unit('out.xz.write_lzma', (X + 'write_lzma', None), contract=xz(WG_
                   stubs=['lib_lzma_code', 'BaseCborOutputWriter__write'], setup=XSETUP + '  unsigned long a_in; int a_act;\n  __CPROVER_assume(a_in <= (1UL << 19));\n',
                   args=['&obj', 'a_in', 'a_act'], props=['C14'], timeout=600, post='  if (g_exc != 0) { CANARY("failure reachable"); }',
                   note='one lzma_code step: as out.gzip.write_gzip'))
-UNITS.append(Unit('out.xz.write', (X + 'write', None), contract=xz(W_C).replace(', @BINDSX', ''), loops={1: xz(W_LOOP), 2: xz(W_LOOP2)}, prelude=P, opaque=XOPQ,
+UNITS.append(Unit('out.xz.write', (X + 'write', None), contract=xz(W_C).replace(', @BINDSX', ''), loops={'1': xz(W_LOOP), '1.1': xz(W_LOOP2)}, prelude=P, opaque=XOPQ,
                   ghost=WGH, replace=['out.xz.write_lzma'], stubs=['lib_lzma_code', 'BaseCborOutputWriter__write'],
                   setup=XSETUP + WSET.replace('AVAIL', 'm_lzma.avail_in'),
                   args=['&obj', 'data', 'a_n'], props=['C14'], timeout=600, post='  if (g_exc != 0) { CANARY("failure reachable"); }',
@@ -227,7 +267,7 @@ WI_ROT = '''
 __CPROVER_requires(__CPROVER_w_ok($this, sizeof(*$this)) && __CPROVER_r_ok($1, sizeof(*$1)) && g_exc == 0 && g_closes == 0)
 __CPROVER_assigns($this->m_value, g_closes, g_closed_fd, g_exc)
 __CPROVER_ensures(g_exc == 0 || g_exc == EXC_CborOutputException)
-__CPROVER_ensures($1->which != 2 ==> (g_exc == 0 && g_closes == 0 && $this->m_value == @V0))
+__CPROVER_ensures(($1->which != 2 && g_exc == 0 && g_closes == 0) ==> $this->m_value == @V0)   /* a value of the other kind: see out.fd.rotate_output.c13 */
 __CPROVER_ensures($1->which == 2 ==> ($this->m_value == $1->fd && g_closes == (@V0 != -1 ? 1UL : 0UL) && (@V0 == -1 || g_closed_fd == @V0)))
 '''
 UNITS.append(Unit('out.fd.rotate_output', ('@_ZN4CDNS6WriterIiE13rotate_outputERKN5boost3anyE', None), contract=WI_ROT, prelude=P, opaque={'boost::any': 'struct any', 'std::type_info': 'struct type_info', 'stat': 'struct stat_s'},
@@ -235,7 +275,33 @@ UNITS.append(Unit('out.fd.rotate_output', ('@_ZN4CDNS6WriterIiE13rotate_outputER
                   stubs=['lib_close', 'lib_fstat', 'any\\w+', 'typeid__\\w+', 'type_info__\\w+'],
                   setup='  static struct Writer_i32 obj; static struct any val;\n  g_closes = 0;\n', args=['&obj', '&val'], props=['C13', 'C16'], timeout=300,
                   post='  if (g_exc != 0) { CANARY("invalid descriptor reachable"); }',
-                  note='descriptor output: a value of another type is ignored; otherwise the old descriptor is closed exactly once (never -1), the new one adopted and checked with fstat (an invalid one raises)'))
+                  note='descriptor output: for a descriptor value the old descriptor is closed exactly once (never -1), the new one adopted and checked with fstat (an invalid one raises)'))
+
+# ---------------------------------------------------------------- C13: rotation to the other kind of output (file name <-> descriptor)
+# The property speaks of rotations "to file names or descriptors": whenever rotate_output returns normally the output that was current must have been
+# closed (it receives no further bytes). These two units state exactly that for a value of the other kind (known finding: the value is ignored silently).
+WS_R13 = """
+__CPROVER_requires(__CPROVER_w_ok($this, sizeof(*$this)) && __CPROVER_r_ok($1, sizeof(*$1)) && g_exc == 0 && !g_f_order_bad && !g_f_renamed && $this->m_out.open_ == g_f_open && g_f_nrename == 0 && !g_f_name_bad)
+__CPROVER_requires($1->which == 2 && g_f_open && """ + NAME_INV + """)
+__CPROVER_assigns($this->m_out, $this->m_value, g_f_open, g_f_flushed, g_f_renamed, g_f_order_bad, g_f_nrename, g_f_name_bad, g_f_path, g_f_base, g_f_suffix, g_cc, g_exc)
+__CPROVER_ensures(g_exc == 0 ==> (g_f_nrename == 1 && !g_f_open))
+"""
+UNITS.append(Unit('out.file.rotate_output.c13', ('@_ZN4CDNS6WriterINSt7__cxx1112basic_stringIcSt11char_traitsIcESaIcEEEE13rotate_outputERKN5boost3anyE', None), contract=WS_R13, prelude=P, opaque=WS_OPQ,
+                  inline=[('@_ZN4CDNS6WriterINSt7__cxx1112basic_stringIcSt11char_traitsIcESaIcEEEE5closeEv', None), ('@_ZN4CDNS6WriterINSt7__cxx1112basic_stringIcSt11char_traitsIcESaIcEEEE4openEv', None)],
+                  stubs=['ofstream__\\w+', 'lib_rename', 'cstring__\\w+', 'any\\w+', 'typeid__\\w+', 'type_info__\\w+'],
+                  setup='  static struct Writer_str obj; static struct any val;\n  __CPROVER_assume(!g_f_order_bad && !g_f_renamed && obj.m_out.open_ == g_f_open && g_f_nrename == 0 && !g_f_name_bad && val.which == 2 && g_f_open && NAME_INV_OBJ);\n', args=['&obj', '&val'],
+                  props=['C13'], timeout=300,
+                  note='named output rotated to a file descriptor: a normal return means the named file was completed and closed (known finding: the request is ignored, the exporter goes on writing a second document into the same file)'))
+WI_R13 = """
+__CPROVER_requires(__CPROVER_w_ok($this, sizeof(*$this)) && __CPROVER_r_ok($1, sizeof(*$1)) && g_exc == 0 && g_closes == 0 && $1->which == 1 && $this->m_value != -1)
+__CPROVER_assigns($this->m_value, g_closes, g_closed_fd, g_exc)
+__CPROVER_ensures(g_exc == 0 ==> (g_closes == 1 && g_closed_fd == @V0))
+"""
+UNITS.append(Unit('out.fd.rotate_output.c13', ('@_ZN4CDNS6WriterIiE13rotate_outputERKN5boost3anyE', None), contract=WI_R13, prelude=P, opaque={'boost::any': 'struct any', 'std::type_info': 'struct type_info', 'stat': 'struct stat_s'},
+                  inline=[('@_ZN4CDNS6WriterIiE4openEv', None)], auto_inline=[r'Writer_i32__close'], ghost=[('int', 'V0', '$this->m_value')],
+                  stubs=['lib_close', 'lib_fstat', 'any\\w+', 'typeid__\\w+', 'type_info__\\w+'],
+                  setup='  static struct Writer_i32 obj; static struct any val;\n  g_closes = 0;\n  __CPROVER_assume(val.which == 1 && obj.m_value != -1);\n', args=['&obj', '&val'], props=['C13'], timeout=300,
+                  note='descriptor output rotated to a file name: a normal return means the descriptor was closed (known finding: the request is ignored)'))
 
 for _u in UNITS:
     if isinstance(getattr(_u, 'setup', None), str) and 'NAME_INV_OBJ' in _u.setup:
